@@ -4,6 +4,7 @@
 import RaftWal.Proofs.Codec
 import RaftWal.Generated.Codec
 import RaftWal.Model.Segment
+import RaftWal.Proofs.OpenCheckProps
 namespace RaftWal.C11
 
 /-- T1: the decoder in the current source guards `binary.Uvarint`'s n (no `d.buf[n:]` with n < 0) -/
@@ -73,5 +74,45 @@ theorem readFrame_rejects_oversize (file : Bytes) (off bufSize : Nat) (fh : Fram
     readFrame file off bufSize = .error .corrupt := by
   unfold readFrame
   simp only [hbuf, if_false, hh, hshort, hbig, if_true]
+
+/-! ## "When a segment that metadata lists as sealed is missing, truncated below its header or carries the header of a
+    different segment, Open fails"
+
+    `Model/OpenCheck.lean`: the walk of `wal.Open` over the segment records of the meta store on a directory of byte
+    strings — `Filer.Open` for sealed segments (file present, 32 bytes readable, magic/version, BaseIndex, ID and codec equal
+    to the record's), the model's `recoverTail` for the tail, the create path for a missing tail; each branch mapped to
+    file:line of the source in that file. Tied to the real Open by the opendamage suite: on every damaged directory the
+    model's answer (from the same bytes and records) is ok exactly when Open's is. -/
+
+theorem open_fails_on_missing_sealed (dir : OpenCheck.Dir) (segs : List SegInfo) (codec : Nat) (s : SegInfo)
+    (hmem : s ∈ segs) (hsealed : s.sealed = true) (hmissing : ∀ bytes, (OpenCheck.segName s, bytes) ∉ dir) :
+    ∀ r, OpenCheck.walOpenCheck dir segs codec ≠ .ok r :=
+  OpenCheck.open_fails_on_missing_sealed dir segs codec s hmem hsealed hmissing
+
+theorem open_fails_on_short_sealed (dir : OpenCheck.Dir) (segs : List SegInfo) (codec : Nat) (s : SegInfo) (bytes : Bytes)
+    (hmem : s ∈ segs) (hsealed : s.sealed = true) (hfile : dir.lookup (OpenCheck.segName s) = some bytes)
+    (hshort : bytes.length < fileHeaderLen) : ∀ r, OpenCheck.walOpenCheck dir segs codec ≠ .ok r :=
+  OpenCheck.open_fails_on_short_sealed dir segs codec s bytes hmem hsealed hfile hshort
+
+theorem open_fails_on_foreign_header (dir : OpenCheck.Dir) (segs : List SegInfo) (codec : Nat) (s : SegInfo) (bytes : Bytes)
+    (hdr : HdrInfo) (hmem : s ∈ segs) (hsealed : s.sealed = true) (hfile : dir.lookup (OpenCheck.segName s) = some bytes)
+    (hwell : readFileHeader (bytes.take fileHeaderLen) = some hdr)
+    (hforeign : hdr.base ≠ s.base ∨ hdr.id ≠ s.id) : ∀ r, OpenCheck.walOpenCheck dir segs codec ≠ .ok r :=
+  OpenCheck.open_fails_on_foreign_header dir segs codec s bytes hdr hmem hsealed hfile hwell hforeign
+
+/-- the three cases in one: whenever the walk succeeds, every sealed segment of the record list has its file, of at least
+    header length, whose header is exactly the record's -/
+theorem open_ok_characterised (dir : OpenCheck.Dir) (segs : List SegInfo) (codec : Nat) (r : OpenCheck.TailRes)
+    (h : OpenCheck.walOpenCheck dir segs codec = .ok r) :
+    ∀ s ∈ segs, s.sealed = true → s.codec = codec ∧
+      ∃ bytes, dir.lookup (OpenCheck.segName s) = some bytes ∧ (OpenCheck.segName s, bytes) ∈ dir ∧
+        bytes.length ≥ fileHeaderLen ∧
+        readFileHeader (bytes.take fileHeaderLen) = some { base := s.base, id := s.id, codec := s.codec } :=
+  OpenCheck.open_ok_characterised dir segs codec r h
+
+/-- the walk is total: whatever the bytes, it answers ok or an error -/
+theorem open_total (dir : OpenCheck.Dir) (segs : List SegInfo) (codec : Nat) :
+    (∃ r, OpenCheck.walOpenCheck dir segs codec = .ok r) ∨ (∃ e, OpenCheck.walOpenCheck dir segs codec = .error e) :=
+  OpenCheck.open_total dir segs codec
 
 end RaftWal.C11
